@@ -80,6 +80,9 @@ func main() {
 				c.Split = r.IntN(len(c.Routes) + 1)
 			} else {
 				c.Split = len(c.Routes)
+				if r.IntN(3) == 0 {
+					c.Churn = r.Uint64() | 1
+				}
 			}
 			check(run, c)
 		}
@@ -193,6 +196,13 @@ func check(run *kit.Run, c caseFile) {
 	})
 	if b == nil {
 		return
+	}
+	if b.Churned > 0 {
+		run.Count("cases_with_delete_churn", 1)
+		run.Count("churn_routes_added_and_deleted", int64(b.Churned))
+	}
+	if b.ChurnErr != "" {
+		run.Violate("churn|"+c.RoutesString(), b.ChurnErr, c)
 	}
 	// routes [split:] go in through a write transaction that is probed before it commits
 	if c.Split < len(c.Routes) {
